@@ -119,6 +119,11 @@ def run(tier):
                 why = "__corro_schema lists %s but the database has tables %s after %r" % (g["state"]["corro_schema"], names, what)
             if why is None and {n: cols for n, cols in g["state"]["mem"].items()} != {t["name"]: sorted(c["c"] for c in t["cols"]) for t in real}:
                 why = "the schema the node works with (%s) differs from the database schema after %r" % (json.dumps(g["state"]["mem"]), what)
+            db_idx = {t["name"]: sorted(i["n"] for i in t["idx"]) for t in g["state"]["tables"]}
+            if why is None and {n: v for n, v in g["state"].get("mem_idx", {}).items() if v} != {n: v for n, v in db_idx.items() if v}:
+                why = "the indexes the node works with (%s) differ from the indexes of the database (%s) after %r" % (json.dumps(g["state"].get("mem_idx")), json.dumps(db_idx), what)
+            if why is None and {n: v for n, v in g["state"].get("corro_idx", {}).items() if v} != {n: v for n, v in db_idx.items() if v}:
+                why = "the persisted schema record lists the indexes %s, the database has %s after %r (the record is what a restart loads)" % (json.dumps(g["state"].get("corro_idx")), json.dumps(db_idx), what)
             for t in g["state"]["tables"]:
                 if prev_rows.get(t["name"], 0) > t["rows"]:
                     why = why or "rows of table %s were lost by submission %r" % (t["name"], what)
@@ -132,7 +137,7 @@ def run(tier):
         else:
             if last is not None:
                 ar = got["after_restart"]
-                if view(ar) != view(last) or ar["mem"] != last["mem"] or ar["corro_schema"] != last["corro_schema"]:
+                if view(ar) != view(last) or ar["mem"] != last["mem"] or ar["corro_schema"] != last["corro_schema"] or ar.get("mem_idx") != last.get("mem_idx") or ar.get("corro_idx") != last.get("corro_idx"):
                     rp = vlib.write_replay(PID, "restart", {"walk": [x["i"] for x in wk["steps"]], "before": last, "after": ar})
                     if len(violations) < 6:
                         violations.append(("after a restart the node works with a different schema than before", rp))
